@@ -1,6 +1,6 @@
 (** C15 — model of qcelemental.molutil.molecular_formula_from_symbols (Counter over title-cased symbols, sorted
     keys, Hill exception, count suffixes) on ASCII symbols.  Hand-written; tied by harness/props/c15.py. *)
-From Coq Require Import ZArith List String Ascii Bool Arith.
+From Coq Require Import ZArith List String Ascii Bool Arith DecimalString.
 Require Import QV.Common.Outcome QV.Common.HFSort QV.Common.HFHash.
 Import ListNotations.
 Open Scope nat_scope.
@@ -51,7 +51,7 @@ Definition element_order (o : forder) (syms : list string) : list string :=
 Definition formula_items (o : forder) (syms : list string) : list (string * nat) :=
   map (fun k => (k, count_in k (map title syms))) (element_order o syms).
 
-Definition nat_str (n : nat) : string := string_of_list_ascii (digits (Z.of_nat n)).
+Definition nat_str (n : nat) : string := NilEmpty.string_of_uint (Nat.to_uint n).      (* str(c) *)
 Definition render_item (it : string * nat) : string :=
   String.append (fst it) (if 1 <? snd it then nat_str (snd it) else EmptyString).
 Definition formula (o : forder) (syms : list string) : string :=
@@ -64,25 +64,41 @@ Definition parse_order (s : string) : outcome forder :=
 Definition formula_from_symbols (syms : list string) (order : string) : outcome string :=
   obind (parse_order order) (fun o => Ok (formula o syms)).
 
-(** reading a formula back: an upper-case letter starts an element, the following non-upper-case non-digit
-    characters belong to it, the digits after it are its count (order_molecular_formula's two regular expressions,
-    on well-formed element symbols) *)
+(** reading a formula back (order_molecular_formula): re.findall of an upper-case letter followed by non-upper-case
+    characters cuts the text at upper-case letters; in each piece re.match of non-digits then digits takes the non-digits as the symbol and the digits that follow as
+    the count (1 when there are none); whatever follows those digits inside the piece is ignored *)
 Definition is_digit (c : ascii) : bool := let n := nat_of_ascii c in (48 <=? n) && (n <=? 57).
-Fixpoint parse_items (s : string) (cur : option (string * option nat)) : list (string * nat) :=
-  let flush c := match c with None => [] | Some (k, None) => [(k, 1)] | Some (k, Some n) => [(k, n)] end in
+Inductive dstate := NoDigits | Digits (n : nat) | Closed (n : nat).
+Definition flush (cur : option (string * dstate)) : list (string * nat) :=
+  match cur with
+  | None => []
+  | Some (k, NoDigits) => [(k, 1)]
+  | Some (k, Digits n) | Some (k, Closed n) => [(k, n)]
+  end.
+Fixpoint parse_items (s : string) (cur : option (string * dstate)) : list (string * nat) :=
   match s with
   | EmptyString => flush cur
   | String c r =>
-      if is_upper c then flush cur ++ parse_items r (Some (String c EmptyString, None))
+      if is_upper c then flush cur ++ parse_items r (Some (String c EmptyString, NoDigits))
       else match cur with
            | None => parse_items r None
-           | Some (k, None) => if is_digit c then parse_items r (Some (k, Some (nat_of_ascii c - 48)))
-                               else parse_items r (Some (String.append k (String c EmptyString), None))
-           | Some (k, Some n) => if is_digit c then parse_items r (Some (k, Some (10 * n + (nat_of_ascii c - 48))))
-                                 else parse_items r (Some (k, Some n))
+           | Some (k, NoDigits) => if is_digit c then parse_items r (Some (k, Digits (nat_of_ascii c - 48)))
+                                   else parse_items r (Some (String.append k (String c EmptyString), NoDigits))
+           | Some (k, Digits n) => if is_digit c then parse_items r (Some (k, Digits (10 * n + (nat_of_ascii c - 48))))
+                                   else parse_items r (Some (k, Closed n))
+           | Some (k, Closed n) => parse_items r (Some (k, Closed n))
            end
   end.
+
+(* the symbols list order_molecular_formula rebuilds: each symbol repeated count times (counts of a repeated symbol add) *)
+Definition expand (its : list (string * nat)) : list string := flat_map (fun it => repeat (fst it) (snd it)) its.
+Definition starts_upper (s : string) : bool := match s with EmptyString => true | String c _ => is_upper c end.
+Definition order_formula (s : string) (order : string) : outcome string :=
+  if starts_upper s then obind (parse_order order) (fun o => Ok (formula o (expand (parse_items s None))))
+  else Err PyValueError.                     (* "".join(matches) != formula *)
 
 (** correspondence helpers *)
 Definition check_formula (c : list string * string * outcome string) : bool :=
   let '(syms, order, expected) := c in outcome_eqb String.eqb (formula_from_symbols syms order) expected.
+Definition check_order_formula (c : string * string * outcome string) : bool :=
+  let '(s, order, expected) := c in outcome_eqb String.eqb (order_formula s order) expected.
